@@ -17,6 +17,8 @@ Fails(c) ==
   \cup (IF c.clean_raised = 1 THEN {"union_refused_equal_shared_part"} ELSE {})
   \* the same calls on the same tables with the metadata of a random subset of rows removed: row for row the same result, each row
   \* with the metadata (or none) of the row it came from
+  \cup (IF c.facade_subset_same = 1 THEN {} ELSE {"TreeSequence_subset_differs_from_TableCollection_subset"})
+  \cup (IF c.facade_union_same = 1 THEN {} ELSE {"TreeSequence_union_differs_from_TableCollection_union"})
   \cup (IF c.ragged_subset_ok = 1 THEN {} ELSE {"subset_with_ragged_metadata"})
   \cup (IF c.ragged_union_ok = 1 THEN {} ELSE {"union_with_ragged_metadata"})
 Init == k = 0
